@@ -1,4 +1,5 @@
 import StepModel.GenFiles
+import StepModel.GenCxxPass
 /-! Line-protocol driver for the scanner / exp2cxx file-set model (C17; also used by C12 for orders and text).
 
   reset                                   -> ok
@@ -11,6 +12,8 @@ import StepModel.GenFiles
   scan                                    -> S <stdout short names …> | <dir> <hex CMakeLists.txt> | …   (final file system)
   listed                                  -> L <schema> f f … | <schema> f f …
   passes                                  -> P <schema>=<k,…>;…  |  P unmodelled
+  pschema <name> / pobj T|E|S <key> <qname> <isEnum> <isSelect> <renameOf|-> <items|-> <entAttrTypes|-> <descendants|-> <supers|->
+  printfile                               -> F <schema>=<suffix,…>;…  (SCHEMAprint calls predicted by Pass.printFile) | F hung | F unfinished
   cxx auto | cxx <schema>=<k,k,…>;…       -> C f f …  |  C refused (identifier longer than MAX_IDENT_LEN: exit 1) | C unmodelled
 -/
 open StepModel.GenFiles StepModel.Generated.Scanner StepModel
@@ -18,6 +21,7 @@ open StepModel.GenFiles StepModel.Generated.Scanner StepModel
 structure St where
   path : String := ""
   schemas : List (String × List Decl) := []     -- textual order, decls in textual order (reversed while reading)
+  pschemas : List (String × List (Char × String × Pass.Obj)) := []   -- pass-model objects: (class T/E/S, dictionary key, object)
 
 def hexVal (c : Char) : Option Nat :=
   if '0' ≤ c ∧ c ≤ '9' then some (c.toNat - '0'.toNat)
@@ -83,6 +87,30 @@ def handle (st : St) (line : String) : St × String :=
     | _, _, _ => (st, "bad-op")
   | ["other", n] => match addDecl st (.other n) with
     | some st' => (st', "ok") | none => (st, "bad-op")
+  | ["pschema", n] => ({ st with pschemas := (n, []) :: st.pschemas }, "ok")
+  | ["pobj", cls, key, qn, ise, iss, ren, items, eattrs, descs, sups] =>
+    let csv (x : String) : List String := if x == "-" then [] else (x.splitOn ",").filter (· ≠ "")
+    match cls.toList, parseBool ise, parseBool iss, st.pschemas with
+    | [c], some ise, some iss, (n, os) :: r =>
+      if c == 'T' || c == 'E' || c == 'S' then
+        let o : Pass.Obj := { name := qn, isEnum := ise, isSelect := iss, renameOf := if ren == "-" then none else some ren,
+                              items := csv items, entAttrTypes := csv eattrs, descendants := csv descs, supers := csv sups,
+                              foreign := c == 'S' }
+        ({ st with pschemas := (n, (c, key, o) :: os) :: r }, "ok")
+      else (st, "bad-op")
+    | _, _, _, _ => (st, "bad-op")
+  | ["printfile"] =>
+    -- schemas in DICTdo order of their names, types and entities in DICTdo order of the schema's symbol table
+    let textual := st.pschemas.reverse.map fun (n, os) => (n, os.reverse)
+    let ordered := (ExpressHash.dictOrder textual).map fun (n, os) =>
+      let own := (ExpressHash.dictOrder ((os.filter (fun x => x.1 != 'S')).map fun (c, k, o) => (k, (c, o)))).map (·.2)
+      ({ name := n, types := (own.filter (·.1 == 'T')).map (·.2), ents := (own.filter (·.1 == 'E')).map (·.2),
+         stubs := (os.filter (fun x => x.1 == 'S')).map (·.2.2) } : Pass.PSchema)
+    let fs := Pass.printFile Generated.CxxPass.sweepLoop Generated.CxxPass.enumLastCase ordered 60
+    if fs.hung then (st, "F hung")
+    else if ordered.any (fun p => fs.unprocessed p.name) then (st, "F unfinished")
+    else (st, "F " ++ ";".intercalate (ordered.map fun p =>
+      p.name ++ "=" ++ ",".intercalate ((fs.printed.filter (·.1 == p.name)).map fun x => toString x.2)))
   | ["order"] =>
     let f := st.file
     (st, "O " ++ " | ".intercalate (f.schemas.map fun s => s.name ++ ": " ++ " ".intercalate (s.decls.map declKey)))
